@@ -140,8 +140,13 @@ def q_accessors(c, A, ctx):
 
 def q_cif(c, A, ctx):
     # exported text is compared through what it parses back to (a loaded
-    # crystal legitimately carries extra CIF items a fresh one does not)
-    return Crystal.from_cif_string(c.to_cif_string())
+    # crystal legitimately carries extra CIF items a fresh one does not); for
+    # a crystal that was NOT born from a CIF the text itself is compared too
+    text = c.to_cif_string()
+    parsed = Crystal.from_cif_string(text)
+    if ctx.get("cif_text"):
+        return {"parsed": parsed, "text": text}
+    return parsed
 
 
 def q_cif_data(c, A, ctx):
